@@ -1,9 +1,9 @@
 #!/bin/sh
-# usage: tools/run_seeded.sh [tier]   — every seeded change against its property's check (scratch worktree each; /repo untouched)
+# usage: tools/run_seeded.sh [tier] [jobs]   — every seeded change against its property's check (scratch worktree each; /repo untouched)
+# honours VERIF_SEED; a seed's meta.json may name another property's check in "check" (default: the property it breaks)
 cd "$(dirname "$0")/.." || exit 2
-TIER="${1:-quick}"
-for d in seeded/*/; do
-  sid=$(basename "$d"); prop=${sid%%-*}
-  out=$(tools/try_patch.sh "$d/patch.diff" "$prop" "$TIER" 2>&1 | tail -1)
-  echo "$sid $out"
-done
+TIER="${1:-quick}"; JOBS="${2:-4}"
+ls -d seeded/*/ | xargs -P "$JOBS" -I{} sh -c '
+  d={}; sid=$(basename "$d"); prop=$(python3 -c "import json,sys;m=json.load(open(\"$d/meta.json\"));print(m.get(\"check\",m[\"breaks\"]))")
+  out=$(tools/try_patch.sh "$d/patch.diff" "$prop" '"$TIER"' 2>&1 | tail -1)
+  echo "$sid $prop $out"' | sort
